@@ -78,7 +78,7 @@ def gen_cases(ctx):
     cases = []
     for c in json.load(open(os.path.join("corpus", "C13", "cases.json"))):
         cases.append({"buf": c["buf"], "events": c["events"], "origin": "corpus"})
-    n_rand = 1200 if ctx.thorough else 220
+    n_rand = 800 if ctx.thorough else 220
     for i in range(n_rand):
         malformed = rng.random() < 0.15
         buf = rng.random() > 0.12
@@ -228,7 +228,7 @@ def run(ctx):
     if os.path.exists(outp):
         os.remove(outp)
     ctx.log("running %d histories on real actors" % len(cases))
-    rc, out = ctx.go_test("actor", "^TestVerifC13", ["zz_verif_C13_test.go"])
+    rc, out = ctx.go_test("actor", "^TestVerifC13", ["zz_verif_C13_test.go"], timeout=1800)
     ctx.log("go harness done rc=%d" % rc)
     outs = read_jsonl(outp)
     if rc != 0 or len(outs) != len(cases):
